@@ -61,6 +61,7 @@ static int scenario(long k)
             TK "RSA/ALL_RSA_CAS.pem");
     }
     fi_armed = 0;
+    if (k < 0 && (rc < 0 || countCAs(keys) < 1)) printf("demo3: baseline load failed?! rc=%d\n", rc);
     if (which == 2)
     {
         static int expect = 4;
@@ -83,7 +84,8 @@ static int scenario(long k)
     return bad;
 }
 
-int main(void)
+#define WANT(c) (argc < 2 || strchr(argv[1], (c)))
+int main(int argc, char **argv)
 {
     long n;
     int bad = 0;
@@ -118,5 +120,6 @@ int main(void)
     }
 
     printf("demo3: %d single faults ended in a crash or a false success\n", bad);
+    if (!bad) printf("OK: demo3: every single fault made the load return an error, and the fault-free loads work\n");
     return bad ? 1 : 0;
 }
